@@ -8,7 +8,7 @@
 (***************************************************************************)
 EXTENDS Naturals, Sequences, FiniteSets
 
-Int(w, s)   == [k |-> "int", w |-> w, s |-> s]
+IntT(w, s)   == [k |-> "int", w |-> w, s |-> s]
 Float(w)    == [k |-> "float", w |-> w]
 Simple(k)   == [k |-> k]
 RawPtr(m)   == [k |-> "rawptr", m |-> m]
@@ -25,20 +25,20 @@ Variant(eu, u, name, t, d) == [k |-> "variant", euid |-> eu, uid |-> u, name |->
 Enum(u, vs) == [k |-> "enum", uid |-> u, vs |-> vs]
 FnPtr(ps, r) == [k |-> "fnptr", ps |-> ps, ret |-> r]
 
-I8 == Int(8, TRUE)     U8 == Int(8, FALSE)
-I16 == Int(16, TRUE)   U16 == Int(16, FALSE)
-I32 == Int(32, TRUE)   U32 == Int(32, FALSE)
-I64 == Int(64, TRUE)   U64 == Int(64, FALSE)
-I128 == Int(128, TRUE) U128 == Int(128, FALSE)
-ISize == Int(255, TRUE) USize == Int(255, FALSE)
-WInt == Int(0, TRUE)   WUInt == Int(0, FALSE)
+I8 == IntT(8, TRUE)     U8 == IntT(8, FALSE)
+I16 == IntT(16, TRUE)   U16 == IntT(16, FALSE)
+I32 == IntT(32, TRUE)   U32 == IntT(32, FALSE)
+I64 == IntT(64, TRUE)   U64 == IntT(64, FALSE)
+I128 == IntT(128, TRUE) U128 == IntT(128, FALSE)
+ISize == IntT(255, TRUE) USize == IntT(255, FALSE)
+WInt == IntT(0, TRUE)   WUInt == IntT(0, FALSE)
 F32 == Float(32) F64 == Float(64) WFloat == Float(0)
 Bool == Simple("bool") Str == Simple("str") Char == Simple("char")
-TypeT == Simple("type") Any == Simple("any") RawSlice == Simple("rawslice")
+TypeT == Simple("type") AnyT == Simple("any") RawSlice == Simple("rawslice")
 Void == Simple("void") Nil == Simple("nil")
 
 Prims == <<I8, I16, I32, I64, I128, ISize, U8, U16, U32, U64, U128, USize, WInt, WUInt,
-           F32, F64, WFloat, Bool, Str, Char, TypeT, Any, RawPtr(FALSE), RawPtr(TRUE), RawSlice,
+           F32, F64, WFloat, Bool, Str, Char, TypeT, AnyT, RawPtr(FALSE), RawPtr(TRUE), RawSlice,
            Void, Nil>>
 
 (* the pool the constructors are applied to at depth 1 *)
